@@ -6,7 +6,7 @@ Definition io_string_witness : string := EmptyString.
 Extraction "c15.ml" tag untag from_object as_object from_ssize too_big
   is_add_overflow is_sub_overflow is_mul_overflow maybe_floordiv_fault maybe_remainder_fault is_short_lshift_overflow
   tagged_negate tagged_invert tagged_add tagged_subtract tagged_multiply tagged_floordiv tagged_remainder
-  tagged_and tagged_or tagged_xor tagged_rshift tagged_lshift
+  tagged_bit_length py_bit_length tagged_and tagged_or tagged_xor tagged_rshift tagged_lshift
   tagged_is_eq tagged_is_ne tagged_is_lt tagged_is_le tagged_is_gt tagged_is_ge compare_tagged
   fw_op fw_inline_divide fw_inline_mod fw_neg fw_invert fw_wrap in_range coerce_int_to_fw coerce_fw_to_int long_as_fw
   py_add py_sub py_mul py_neg py_invert py_and py_or py_xor py_floordiv py_mod py_lshift py_rshift py_cmp py_fwop
